@@ -28,7 +28,7 @@ ASSUMPTIONS = [
     "commands no ordering rule mentions are not ranked; ties inside one rank are not judged",
     "metamorphic relation is evaluated only when the reduced patch's commands are a sub-multiset of the full patch's commands (otherwise the deleted row was not unrelated)",
 ]
-FLOORS = {"quick": {"patches_ranked": 1500, "ranked_pairs": 3000, "sort_calls": 3000, "configs_ordered": 1500, "metamorphic_pairs": 150, "several_global_rule_cases": 300, "echoed_family_cases": 300, "unordered_blocks_compared": 500, "commented_patches": 300, "commented_commands": 600, "scoped_rule_cases": 300},
+FLOORS = {"quick": {"patches_ranked": 1500, "ranked_pairs": 3000, "sort_calls": 3000, "configs_ordered": 1500, "metamorphic_pairs": 150, "several_global_rule_cases": 300, "echoed_family_cases": 300, "unordered_blocks_compared": 500, "commented_patches": 300, "commented_commands": 600, "scoped_rule_cases": 300, "ordering_lines_with_tab_before_params": 300, "mirrored_pairs_checked": 150},
           "thorough": {"patches_ranked": 60000, "ranked_pairs": 100000, "sort_calls": 100000, "configs_ordered": 60000, "metamorphic_pairs": 300, "several_global_rule_cases": 10000, "echoed_family_cases": 10000, "unordered_blocks_compared": 15000, "commented_patches": 10000, "commented_commands": 20000, "scoped_rule_cases": 10000}}
 VENDORS = c01.BLOCK_VENDORS
 KNOWN_ZERO = "C08/first-ordering-rule-has-rank-zero"
@@ -39,6 +39,7 @@ def plan(tier, seed):
     specs = [{"mode": "random", "tier": tier, "seed": seed, "shard": k, "nshards": n} for k in range(n)]
     m = 4 if tier == "quick" else 16
     specs += [{"mode": "meta", "tier": tier, "seed": seed, "shard": k, "nshards": m} for k in range(m)]
+    specs.append({"mode": "mirror", "tier": tier, "seed": seed})
     return specs
 
 
@@ -220,7 +221,7 @@ def make_case(seed, many_globals=False, echo=False, scoped=False):
     return vname, rules, order, old, new
 
 
-def check_case(seed, acc, many_globals=False, echo=False, scoped=False):
+def check_case(seed, acc, many_globals=False, echo=False, scoped=False, tabs=False):
     from annet.api import _diff_and_patch
     from annet.annlib.patching import Orderer
     from annet.annlib.rbparser.ordering import compile_ordering_text
@@ -234,7 +235,18 @@ def check_case(seed, acc, many_globals=False, echo=False, scoped=False):
         acc.count("echoed_family_cases")
     v, prefix, exitw, hw, fmt = c01.vendor_env(vname)
     rtext, otext = RB.render(rules), RO.render(order)
-    w = {"seed": seed, "many_globals": many_globals, "echo": echo, "scoped": scoped, "vendor": vname, "rulebook": rtext, "ordering": otext, "old": plain(old), "new": plain(new)}
+    if tabs:
+        # column-aligned rule files: TABs (or a blank and TABs) in front of the first parameter of a line
+        trng = random.Random(seed ^ 0x7AB5)
+        lines = []
+        for ln in otext.split("\n"):
+            i = ln.find(" %")
+            if i > 0 and trng.random() < 0.7:
+                ln = ln[:i].rstrip() + trng.choice(["\t", "\t\t", " \t"]) + ln[i:].lstrip()
+            lines.append(ln)
+        otext = "\n".join(lines)
+        acc.count("ordering_lines_with_tab_before_params", sum(1 for ln in lines if "\t%" in ln))
+    w = {"seed": seed, "many_globals": many_globals, "echo": echo, "scoped": scoped, "tabs": tabs, "vendor": vname, "rulebook": rtext, "ordering": otext, "old": plain(old), "new": plain(new)}
     try:
         rb = c01.compile_rb(rtext, vname)
         rb["ordering"] = compile_ordering_text(otext, vname)
@@ -454,7 +466,76 @@ def run_meta(spec, acc):
     acc.sample({"metamorphic_samples": len(samples)})
 
 
+_CISCO_MORE = "ip domain-name example.com\nip name-server 8.8.8.8\naaa new-model\nspanning-tree mode rapid-pvst\nlldp run\nclock timezone MSK 3\nusername u privilege 15 secret x\ntacacs-server host 1.1.1.1\nip route 0.0.0.0 0.0.0.0 10.0.0.1\nip prefix-list PL seq 5 permit 10.0.0.0/8\n"
+_HUAWEI_MORE = "dns domain example.com\nstp mode rstp\nlldp enable\nclock timezone MSK add 03:00:00\nip route-static 0.0.0.0 0.0.0.0 10.0.0.1\nip ip-prefix PL index 5 permit 10.0.0.0 8\nssh server-source -i LoopBack0\nhwtacacs-server template T\n"
+MIRROR_PAIRS = [
+    # (model, config A, config B): top-level lines of several command families present on one side only, incl. VLAN lists handled by vendor logic
+    ("Cisco Catalyst 2960", "vlan 5-6,10\nsnmp-server community x RO\nntp server 1.1.1.1\nhostname a\nip ssh version 2\nlogging host 10.0.0.1\n" + _CISCO_MORE, "vlan 7,10\nhostname a\n"),
+    ("Cisco Catalyst", "vlan 5-6,10\nsnmp-server location x\nntp server 1.1.1.1\nhostname a\n" + _CISCO_MORE, "vlan 10\nhostname a\nvlan group G1 vlan-list 10\n"),
+    ("Cisco Nexus 9316", "vlan 5-6,10\nsnmp-server community x group network-operator\nntp server 1.1.1.1\nhostname a\nfeature bgp\n" + _CISCO_MORE, "vlan 7,10\nhostname a\n"),
+    ("Cisco ASR 9010", "vlan 5-6,10\nsnmp-server community x RO\nntp server 1.1.1.1\nhostname a\n" + _CISCO_MORE, "vlan 7,10\nhostname a\n"),
+    ("Huawei CE6870", "vlan batch 5 to 6 10\nsnmp-agent community read x\nntp-service unicast-server 1.1.1.1\nsysname a\ninfo-center loghost 10.0.0.1\n" + _HUAWEI_MORE, "vlan batch 7 10\nsysname a\n"),
+    ("Huawei NE40E-X8", "snmp-agent community read x\nntp-service unicast-server 1.1.1.1\nsysname a\ninfo-center loghost 10.0.0.1\n" + _HUAWEI_MORE, "sysname a\n"),
+    ("Arista DCS-7050", "vlan 5-6,10\nsnmp-server community x ro\nntp server 1.1.1.1\nhostname a\nlogging host 10.0.0.1\n" + _CISCO_MORE, "vlan 7,10\nhostname a\n"),
+]
+
+
+def run_mirror(spec, acc):
+    """removals are issued in the reverse of the order in which the same lines are created: for two top-level lines that the patch A->B removes and
+    the patch B->A creates (exact negations of each other), ranked differently by the ordering rulebook, the two patches hold them in opposite
+    orders. Shipped rulebooks; fixture corpus pairs and hand-written pairs; rules marked %order_reverse are exempt (they say so)."""
+    from vf import corpus
+    from annet.api import _diff_and_patch
+    from annet.annlib.netdev.views.hardware import HardwareView
+    from annet.annlib import tabparser
+    from annet.vendors import registry_connector
+    from annet import rulebook
+    jobs = []
+    for s in corpus.patch_samples():
+        try:
+            hw, old, new = corpus.sample_configs(s)
+            jobs.append((s[0], hw, old, new))
+        except Exception:
+            continue
+    for model, a, b in MIRROR_PAIRS:
+        hw = HardwareView(model, "")
+        fmt = registry_connector.get().match(hw).make_formatter()
+        jobs.append(("hand:" + model, hw, tabparser.parse_to_tree(a, fmt.split), tabparser.parse_to_tree(b, fmt.split)))
+    for name, hw, a, b in jobs:
+        v = registry_connector.get().match(hw)
+        prefix = v.reverse
+        if not prefix:
+            continue
+        try:
+            _, pf = _diff_and_patch(c01.Dev(hw), a, b, None, None, False)
+            _, pb = _diff_and_patch(c01.Dev(hw), b, a, None, None, False)
+            ordering = rulebook.get_rulebook(hw)["ordering"]
+        except Exception:
+            acc.count("mirror_skipped_exception")
+            continue
+        for fwd, bwd, tag in ((pf, pb, "A->B"), (pb, pf, "B->A")):
+            F = [str(i.row) for i in fwd.itms if i.child is None or not i.child.itms]
+            B = [str(i.row) for i in bwd.itms if i.child is None or not i.child.itms]
+            created = [r for r in B if not r.startswith(prefix + " ") and (prefix + " " + r) in F]
+            exempt = {r for r in created if any(rule["attrs"]["order_reverse"] and rule["attrs"]["direct_regexp"].match(prefix + " " + r) for rule in ordering.values())}
+            created = [r for r in created if r not in exempt]
+            keyb = {str(i.row): i.sort_key[0] for i in bwd.itms}
+            acc.count("mirror_patches")
+            for i, x in enumerate(created):
+                for y in created[i + 1:]:
+                    if keyb[x] == keyb[y]:
+                        continue  # equal rank: positional order, nothing to mirror
+                    acc.count("mirrored_pairs_checked")
+                    acc.case(["mirror", name, tag, x, y], nontrivial=True)
+                    if F.index(prefix + " " + x) < F.index(prefix + " " + y):
+                        acc.violation("C08/removals-not-in-mirrored-order", "two lines created in one order are removed in the same order although the ordering rulebook ranks them differently (removals mirror the creation order)",
+                                      {"mirror": True, "sample": name, "direction": tag, "created_order": [x, y], "removal_order": [c for c in F if c in (prefix + " " + x, prefix + " " + y)],
+                                       "ranks": [keyb[x], keyb[y]]})
+
+
 def run_shard(spec, acc):
+    if spec["mode"] == "mirror" or (spec["mode"] == "replay" and spec["witness"].get("mirror")):
+        return run_mirror(spec, acc)
     if spec["mode"] == "replay":
         w = spec["witness"]
         if w.get("comments"):
@@ -462,7 +543,7 @@ def run_shard(spec, acc):
         elif w.get("meta"):
             run_meta({"tier": "thorough", "shard": 0, "nshards": 1, "only": w.get("sample")}, acc)
         else:
-            check_case(w["seed"], acc, many_globals=bool(w.get("many_globals")), echo=bool(w.get("echo")), scoped=bool(w.get("scoped")))
+            check_case(w["seed"], acc, many_globals=bool(w.get("many_globals")), echo=bool(w.get("echo")), scoped=bool(w.get("scoped")), tabs=bool(w.get("tabs")))
         return
     if spec["mode"] == "meta":
         return run_meta(spec, acc)
@@ -481,3 +562,5 @@ def run_shard(spec, acc):
             check_comments_case(rng.randrange(1 << 48), acc)
         if j % 5 == 3:
             check_case(rng.randrange(1 << 48), acc, scoped=True)
+        if j % 5 == 1:
+            check_case(rng.randrange(1 << 48), acc, tabs=True, scoped=(j % 10 == 1))
